@@ -302,7 +302,20 @@ func (x *c16Run) jsonValues() {
 					g, err := x.ns.CompareAdaptive(bg, l, rr, val.JsonAdaptiveEnc)
 					c.Count("c16.json_compares", 1)
 					if err != nil || sign(g) != sign(want) {
-						x.lim.Violation("c16/compare/json/"+na+"-vs-"+nb, "comparison of two JSON documents depends on their stored form",
+						cls := "other"
+						_, ao := a.v.(map[string]any)
+						_, bo := b.v.(map[string]any)
+						_, aa := a.v.([]any)
+						_, ba := b.v.([]any)
+						switch {
+						case want == 0:
+							cls = "equal-documents"
+						case ao && bo:
+							cls = "order-of-unequal-objects"
+						case aa && ba:
+							cls = "order-of-unequal-arrays"
+						}
+						x.lim.Violation("c16/compare/json/"+cls+"/"+na+"-vs-"+nb, "comparison of two JSON documents depends on their stored form",
 							map[string]any{"got": g, "want": want, "err": fmt.Sprint(err), "left": clipS(string(a.buf)), "right": clipS(string(b.buf))})
 					}
 				}
